@@ -61,7 +61,17 @@ macro_rules! dim_checks {
                 ensure_eq!(t, cp - cv, "sub_assign", "p -= v");
                 // reference operand forms
                 ensure_eq!(&cp + cv, cp + cv, "ref-forms", "&p + v");
+                ensure_eq!(cp + &cv, cp + cv, "ref-forms", "p + &v");
+                ensure_eq!(&cp + &cv, cp + cv, "ref-forms", "&p + &v");
+                ensure_eq!(&cp - cv, cp - cv, "ref-forms-sub", "&p - v");
+                ensure_eq!(cp - &cv, cp - cv, "ref-forms-sub", "p - &v");
+                ensure_eq!(&cp - &cv, cp - cv, "ref-forms-sub", "&p - &v");
                 ensure_eq!(&cq - &cp, cq - cp, "ref-forms-pp", "&q - &p");
+                ensure_eq!(cq - &cp, cq - cp, "ref-forms-pp", "q - &p");
+                ensure_eq!(&cq - cp, cq - cp, "ref-forms-pp", "&q - p");
+                // a point minus itself, and the same point through two routes
+                ensure_eq!(cp - cp, $V::<S>::zero(), "point-minus-itself", "p - p = 0");
+                ensure_eq!(cp.midpoint(cp), cp, "midpoint-of-equal-points", "midpoint(p, p) = p");
                 let mut want = S::zero();
                 for i in 0..$n { want = want + p[i] * v[i]; }
                 ensure_eq!(EuclideanSpace::dot(cp, cv), want, "point-dot", "dot(p, v)");
@@ -78,6 +88,8 @@ macro_rules! dim_checks {
                 let (cp, cq) = (mkp(&p), mkp(&q));
                 ensure_eq!(pa(cp * a), cms(&p, a, |x, s| x * s), "mul-scalar", "p * a");
                 ensure_eq!(pa(cp / k), cms(&p, k, |x, s| x / s), "div-scalar", "p / k");
+                ensure_eq!(pa(&cp * a), cms(&p, a, |x, s| x * s), "mul-scalar-ref", "&p * a");
+                ensure_eq!(pa(&cp / k), cms(&p, k, |x, s| x / s), "div-scalar-ref", "&p / k");
                 let mut t = cp; t *= a;
                 ensure_eq!(pa(t), cms(&p, a, |x, s| x * s), "mul_assign", "p *= a");
                 let mut t = cp; t /= k;
@@ -181,7 +193,9 @@ fn float3(d: &mut Draw) -> Outcome {
     const E: f64 = f64::EPSILON;
     let class = d.int(0, 3);
     // one magnitude per case, so that p, q, v are comparable and no clause leaves the normal range
-    let m = match class { 0 => 1.0, 1 => d.f64_log(1e-140, 1e-20), 2 => d.f64_log(1e20, 1e140), _ => d.f64_log(1e-3, 1e3) };
+    // (as wide as the statement's own quantities allow: sums of up to 520 such points and halves of differences stay
+    // normal floats from 1e-290 to 1e300; only the homogeneous clause, which multiplies by k, uses a narrower band)
+    let m = match class { 0 => 1.0, 1 => d.f64_log(1e-290, 1e-20), 2 => d.f64_log(1e20, 1e300), _ => d.f64_log(1e-3, 1e3) };
     let mut comp = |d: &mut Draw| m * if d.chance(1, 10) { d.int(-3, 3) as f64 } else { d.f64_in(-4.0, 4.0) };
     let p = Point3::new(comp(d), comp(d), comp(d));
     let q = Point3::new(comp(d), comp(d), comp(d));
@@ -235,6 +249,11 @@ fn float3(d: &mut Draw) -> Outcome {
         _ => d.f64_slog(0.1, 10.0),
     };
     d.note("k", &k);
+    // bring the points of the homogeneous clause back into 1e-140..1e140 (exact power-of-two rescaling)
+    let back_in = |x: f64| if m > 1e140 { x * (2.0f64).powi(-540) } else if m < 1e-140 { x * (2.0f64).powi(540) } else { x };
+    let p = Point3::new(back_in(p.x), back_in(p.y), back_in(p.z));
+    let pa = [p.x, p.y, p.z];
+    let va = [back_in(va[0]), back_in(va[1]), back_in(va[2])];
     let h = p.to_homogeneous();
     ensure!(h.x.to_bits() == p.x.to_bits() && h.y.to_bits() == p.y.to_bits() && h.z.to_bits() == p.z.to_bits() && h.w == 1.0, "float-to_homogeneous", "to_homogeneous(p) = (x,y,z,1) exactly");
     ensure!(arr(Point3::from_homogeneous(h)) == pa, "float-from-to", "from_homogeneous(to_homogeneous(p)) = p exactly (w = 1)");
@@ -291,7 +310,7 @@ pub fn property() -> Property {
             "fields: Q and Fp; the division-free clauses (and midpoint/centroid with the integer's own truncating division) also over i64 in +-1024",
             "homogeneous scale factors and divisors are non-zero by construction",
             "in Fp the list length n of centroid is invertible (n <= 8 < p)",
-            "f64 tier (float3-f64): one magnitude per case from 1e-140..1e140 so that every quantity in the statement stays in the normal range; tolerances are rounding-only (4 eps relative per clause, n eps for an n-term sum); lists up to 520 points; k over 1e+-150 and within 8 ulps of 1",
+            "f64 tier (float3-f64): one magnitude per case from 1e-290..1e300 (1e-140..1e140 for the homogeneous clause, which multiplies by k) so that every quantity in the statement stays in the normal range; tolerances are rounding-only (4 eps relative per clause, n eps for an n-term sum); lists up to 520 points; k over 1e+-150 and within 8 ulps of 1",
         ],
         fuzz: false,
     }
